@@ -117,7 +117,7 @@ def install(eng):
 
     def bi_arr_binop(self, st, args, kw):
         opn, a, b, inplace = args
-        if opn in ("BitOr", "BitAnd") and not inplace and self.is_arr(st, a) and self.is_arr(st, b):
+        if opn in ("BitOr", "BitAnd") and self.is_arr(st, a) and self.is_arr(st, b):
             sa, sb = self.arr_state(st, a), self.arr_state(st, b)
             if sa.kind != "ND" or sb.kind != "ND" or sa.sel is not None or sb.sel is not None:
                 raise Unsupported("| on masked arrays / selections")
@@ -126,8 +126,13 @@ def install(eng):
                     yield self.raise_(s1, "ValueError", "operands could not be broadcast together")
                     continue
                 comb = z3.Or if opn == "BitOr" else z3.And
-                yield s1, s1.alloc(ArrState("ND", smt.BOOLDT, sa.shape, lambda c: z3.If(comb(sa.val(c) != 0, sb.val(c) != 0), z3.RealVal(1), z3.RealVal(0)),
-                                            lambda c: z3.BoolVal(False)))
+                new = ArrState("ND", smt.BOOLDT, sa.shape, lambda c, sa=sa, sb=sb: z3.If(comb(sa.val(c) != 0, sb.val(c) != 0), z3.RealVal(1), z3.RealVal(0)),
+                               lambda c: z3.BoolVal(False))
+                if inplace:
+                    self.mutate(s1, a, new)
+                    yield s1, a
+                else:
+                    yield s1, s1.alloc(new)
             return
         for r in orig_binop(self, st, args, kw):
             yield r
@@ -138,6 +143,21 @@ def install(eng):
         yield st, args[0]
 
     E.bi_arr_soften_mask = bi_arr_soften_mask
+    def bi_numpy_isclose(self, st, args, kw):
+        """numpy.isclose(a, b, rtol=1e-05, atol=1e-08): |a - b| <= atol + rtol * |b| (finite numbers; A-REAL)"""
+        kw = {k: v for k, v in kw.items() if k != "__node__"}
+        a, b = args[0], args[1]
+        rtol = smt.rv(kw.get("rtol", args[2] if len(args) > 2 else 1e-05))
+        atol = smt.rv(kw.get("atol", args[3] if len(args) > 3 else 1e-08))
+        if not self.is_arr(st, a) or not is_num(b):
+            raise Unsupported("isclose of %r, %r" % (a, b))
+        s = self.arr_state(st, a)
+        t = num_term(b)
+        ab = lambda v: z3.If(v >= 0, v, -v)
+        yield st, st.alloc(ArrState("ND", smt.BOOLDT, s.shape, lambda c, s=s: z3.If(ab(s.val(c) - t) <= atol + rtol * ab(t), z3.RealVal(1), z3.RealVal(0)),
+                                    lambda c: z3.BoolVal(False)))
+
+    E.bi_numpy_isclose = bi_numpy_isclose
     E.bi_netCDF4_Dataset = bi_netCDF4_Dataset
     E.obj_attr = obj_attr
     E.contains = contains
@@ -236,8 +256,338 @@ def verify_nc_read(repo):
 
 
 def verify(repo):
+    out, fns = [], []
+    for f, label in ((verify_nc_read, "EEMSRead"), (verify_nc_write, "EEMSWrite")):
+        try:
+            r, fn = f(repo)
+            out += r
+            fns += fn
+        except Unsupported as e:
+            out.append({"name": "%s::%s.execute/supported" % (NCIO, label), "status": "unknown", "backend": "engine", "time_s": 0, "clause": "supported",
+                        "function": "%s::%s.execute" % (NCIO, label), "reason": "unsupported construct: %s" % e})
+    return out, fns
+
+
+# =========================================================================== NetCDF EEMSWrite
+# Everything the netCDF4 library hands out (datasets, variables, dimensions, attribute lists) is an *external object*: any
+# attribute, call, subscript or iteration on it yields external objects again, has no effect on mpilot's arrays, and is
+# recorded in the event log. The contract is about which calls the writer makes with which arrays.
+class Ext(object):
+    pass
+
+
+def ext(st, path, **fields):
+    o = Obj(ClassV("Ext"), dict(fields, path=path))
+    return st.alloc(o)
+
+
+def is_ext(st, v):
+    return isinstance(v, Ref) and isinstance(st.store.get(v.oid), Obj) and st.get(v).cls.name == "Ext"
+
+
+def install_writer(eng):
+    E = Engine
+    if getattr(E, "_ncw_patch", False):
+        return
+
+    def bi_netCDF4_Dataset(self, st, args, kw):
+        if getattr(self, "nc_write_mode", False):
+            st.log.append(("ext-call", "Dataset", list(args), dict(kw)))
+            yield st, ext(st, "Dataset(%s)" % (len([e for e in st.log if e[0] == "ext-call" and e[1] == "Dataset"])))
+        else:
+            yield st, st.alloc(Obj(ClassV("NcDataset"), {"path": args[0]}))
+
+    orig_obj_attr = E.obj_attr
+
+    def obj_attr(self, st, ref, o, name):
+        if o.cls.name == "Ext":
+            yield st, ext(st, o.fields["path"] + "." + name, parent=ref)
+            return
+        for r in orig_obj_attr(self, st, ref, o, name):
+            yield r
+
+    orig_call = E.call
+
+    def call(self, st, f, args, kw, node=None):
+        if is_ext(st, f):
+            kw = {k: v for k, v in kw.items() if k != "__node__"}
+            o = st.get(f)
+            idx = len(st.log)
+            st.log.append(("ext-call", o.fields["path"], list(args), dict(kw)))
+            yield st, ext(st, o.fields["path"] + "()", call_index=idx)
+            return
+        for r in orig_call(self, st, f, args, kw, node):
+            yield r
+
+    orig_get_item = E.get_item
+
+    def get_item(self, st, o, idx):
+        if is_ext(st, o):
+            yield st, ext(st, st.get(o).fields["path"] + "[]", parent=o)
+            return
+        for r in orig_get_item(self, st, o, idx):
+            yield r
+
+    orig_set_item = E.set_item
+
+    def set_item(self, st, o, idx, v):
+        if is_ext(st, o):
+            st.log.append(("ext-store", o, idx, v))
+            yield st, None
+            return
+        for r in orig_set_item(self, st, o, idx, v):
+            yield r
+
+    orig_as_sequence = E.as_sequence
+
+    def as_sequence(self, st, v):
+        if is_ext(st, v):
+            n = smt.fresh("ext_len", z3.IntSort())
+            st.assume(n >= 0)
+            elem = ext(st, st.get(v).fields["path"] + "[k]")
+            yield st, SeqV(n, lambda k, elem=elem: elem, tag="ext")
+            return
+        for r in orig_as_sequence(self, st, v):
+            yield r
+
+    orig_truth = E.truth
+
+    def truth(self, st, v):
+        if is_ext(st, v):
+            # unconstrained: both outcomes, no solver call needed
+            s1, s2 = st.fork(), st.fork()
+            yield s1, True
+            yield s2, False
+            return
+        for r in orig_truth(self, st, v):
+            yield r
+
+    orig_contains = E.contains
+
+    def contains(self, st, container, item):
+        if is_ext(st, container) or is_ext(st, item):
+            s1, s2 = st.fork(), st.fork()
+            yield s1, True
+            yield s2, False
+            return
+        for r in orig_contains(self, st, container, item):
+            yield r
+
+    def bi_dir(self, st, args, kw):
+        yield st, ext(st, "dir()")
+
+    orig_getattr = E.bi_getattr
+
+    def bi_getattr(self, st, args, kw):
+        if is_ext(st, args[0]):
+            yield st, ext(st, st.get(args[0]).fields["path"] + ".<attr>")
+            return
+        for r in orig_getattr(self, st, args, kw):
+            yield r
+
+    def bi_setattr(self, st, args, kw):
+        if is_ext(st, args[0]):
+            st.log.append(("ext-setattr", args[0], args[1], args[2]))
+            yield st, None
+            return
+        raise Unsupported("setattr on %r" % (args[0],))
+
+    orig_set_attr = E.set_attr
+
+    def set_attr(self, st, o, name, v):
+        if is_ext(st, o):
+            st.log.append(("ext-setattr", o, name, v))
+            yield st, None
+            return
+        for r in orig_set_attr(self, st, o, name, v):
+            yield r
+
+    def bi_numpy_ma_MaskedArray(self, st, args, kw):
+        data, mask = args[0], (args[1] if len(args) > 1 else kw.get("mask"))
+        s = self.arr_state(st, data)
+        m = self.arr_state(st, mask)
+        for s1, ok in self.same_shape_or_raise(st, s.shape, m.shape):
+            if not ok:
+                yield self.raise_(s1, "numpy.ma.MaskError", "Mask and data not compatible")
+                continue
+            yield s1, s1.alloc(ArrState("MA", s.dtype, s.shape, s.val, lambda c, m=m: m.val(c) != 0))
+
+    E.bi_netCDF4_Dataset = bi_netCDF4_Dataset
+    E.obj_attr = obj_attr
+    E.call = call
+    E.get_item = get_item
+    E.set_item = set_item
+    E.as_sequence = as_sequence
+    E.truth = truth
+    E.contains = contains
+    E.bi_dir = bi_dir
+    E.bi_getattr = bi_getattr
+    E.bi_setattr = bi_setattr
+    E.set_attr = set_attr
+    E.bi_numpy_ma_MaskedArray = bi_numpy_ma_MaskedArray
+    E._ncw_patch = True
+
+
+class ExtFrameLoop(S.LoopContract):
+    """a loop that only talks to the netCDF library: every local it assigns holds an external object afterwards; no array of mpilot is touched"""
+    summary = True
+
+    def __init__(self, names):
+        self.names = list(names)
+
+    def inv(self, I):
+        st = I.st
+        for n in self.names:
+            I.covered.add(n)
+            if I.mode == "abstract":
+                st.env[n] = ext(st, "<loop local %s>" % n)
+        if I.mode == "check":
+            muts = [ev for ev in st.log[len(I.pre.log):] if ev[0] == "mutate"]
+            I.eng.oblige(st, I.label + "/touches no array", z3.BoolVal(not muts), kind="invariant", meta={"clause": "frame"})
+
+
+class MaskUnionLoop(S.LoopContract):
+    """after j further results: `mask` holds, cell by cell, whether any of results 0..j is missing there (a fresh boolean array)"""
+
+    def __init__(self, acc, var):
+        self.acc, self.var = acc, var
+
+    def inv(self, I):
+        x = I.eng.x
+        L = "OutFieldNames"
+        I.temps(self.var)
+        I.arr(self.acc, "ND", smt.BOOLDT, x.shape(L, z3.IntVal(0)), lambda c: z3.BoolVal(False),
+              lambda c: z3.If(x.pmiss(L, I.j, c), z3.RealVal(1), z3.RealVal(0)))
+
+
+class WriteLoop(S.LoopContract):
+    """every iteration creates one variable named after the command and stores that command's data under the union mask"""
+
+    def __init__(self, names, var):
+        self.names, self.var = list(names), var
+
+    def inv(self, I):
+        st = I.st
+        for n in self.names:
+            I.covered.add(n)
+            if I.mode == "abstract":
+                st.env[n] = ext(st, "<loop local %s>" % n)
+
+    def check(self, eng, pre, st, j, seq, label):
+        S.LoopContract.check(self, eng, pre, st, j, seq, label)
+        x = eng.x
+        L = "OutFieldNames"
+        n = x.n(L)
+        k = z3.simplify(j - 1)  # the iteration just executed
+        new = st.log[st.ghost.get("iter_log_base", len(pre.log)):]
+        c0 = st.cells[0]
+        # lemma PMISS-MONO (induction on the definition of the running union; its step is a separate obligation): a cell missing in
+        # result k is missing in the union of all n results
+        st.assume(z3.Implies(z3.And(k >= 0, k <= n - 1, x.miss(L, c0, k)), x.pmiss(L, n - 1, c0)))
+        creates = [ev for ev in new if ev[0] == "ext-call" and ev[1].endswith(".createVariable")]
+        stores = [ev for ev in new if ev[0] == "ext-store"]
+        muts = [ev for ev in new if ev[0] == "mutate"]
+        m = {"clause": "write"}
+        eng.oblige(st, label + "/one variable is created and one array stored per result", z3.BoolVal(len(creates) == 1 and len(stores) == 1), kind="invariant", meta=m)
+        eng.oblige(st, label + "/touches no array", z3.BoolVal(not muts), kind="invariant", meta={"clause": "frame"})
+        if len(creates) != 1 or len(stores) != 1:
+            return
+        fam = st.fams[("cmds", L)]
+        name = creates[0][2][0] if creates[0][2] else None
+        eng.oblige(st, label + "/the variable is named after the result", (eng.str_term(name) == fam.namefun(k)) if name is not None and eng.is_str(name) else z3.BoolVal(False),
+                   kind="invariant", meta=m)
+        target = st.get(stores[0][1])
+        par = target.fields.get("parent")
+        from_create = par is not None and st.get(par).fields.get("call_index") is not None and st.log[st.get(par).fields["call_index"]] is creates[0]
+        direct = target.fields.get("call_index") is not None and st.log[target.fields["call_index"]] is creates[0]
+        eng.oblige(st, label + "/the array is stored into the variable just created", z3.BoolVal(bool(from_create or direct)), kind="invariant", meta=m)
+        v = stores[0][3]
+        if not (isinstance(v, Ref) and isinstance(st.store.get(v.oid), ArrState)):
+            eng.oblige(st, label + "/a masked array is stored", z3.BoolVal(False), kind="invariant", meta=m)
+            return
+        a = st.get(v)
+        c = st.cells[0]
+        eng.oblige(st, label + "/stored array: shape of the results", a.shape == x.shape(L, z3.IntVal(0)), kind="invariant", meta=m)
+        eng.oblige(st, label + "/stored array: element kind of this result", a.dtype == x.dtype(L, k), kind="invariant", meta=m)
+        eng.oblige(st, label + "/stored array: missing exactly where any written result is missing", a.miss(c) == x.pmiss(L, n - 1, c), kind="invariant",
+                   meta={"clause": "mask"})
+        eng.oblige(st, label + "/stored array: this result's values where nothing is missing", z3.Implies(z3.Not(x.pmiss(L, n - 1, c)), a.val(c) == x.view(L, c, k)),
+                   kind="invariant", meta={"clause": "value"})
+
+
+class NcWriteSpec(CommandSpec):
+    def raises(self, x):
+        n = x.n("OutFieldNames")
+        return [("EmptyInputs", n == 0),
+                ("MixedArrayShapes", ("exists_k", lambda k: z3.And(k >= 1, k < n, x.shape("OutFieldNames", k) != x.shape("OutFieldNames", z3.IntVal(0)))))]
+
+    def result(self, x):
+        return None
+
+
+def verify_nc_write(repo):
+    import ast
+
+    from . import registry, cmdspec
+
+    registry.load(repo)
+    eng = Engine(repo, dict(S.CONTRACTS), dict(S.LOOPS))
+    install(eng)
+    install_writer(eng)
+    eng.nc_write_mode = True
+    eng.lx = {}
+    ci = repo.modules[NCIO].classes["EEMSWrite"]
+    fi = repo.find_method(ci, "execute")
+    eng.frames = [fi]
+    loops = [n for n in eng._ordered_nodes(fi.node) if isinstance(n, (ast.For, ast.While))]
+    eng.frames = []
+    roles = {}
+    # the local that holds the list of commands to write: `<name> = kwargs["OutFieldNames"]`
+    cmdvars = [a.targets[0].id for a in ast.walk(fi.node) if isinstance(a, ast.Assign) and len(a.targets) == 1 and isinstance(a.targets[0], ast.Name)
+               and ast.unparse(a.value).replace("'", '"') == 'kwargs["OutFieldNames"]']
+    for i, n in enumerate(loops):
+        targets, assigned = eng.loop_names(n)
+        src = ast.unparse(n)
+        key = (fi.key, "for", i)
+        if "getmaskarray" in src and any(isinstance(x, ast.AugAssign) and isinstance(x.op, ast.BitOr) for x in ast.walk(n)) and len(assigned) == 1 and len(targets) == 1 \
+                and "createVariable" not in src:
+            eng.loop_contracts[key] = MaskUnionLoop(assigned[0], targets[0])
+            roles["union"] = i
+        elif "createVariable" in src and isinstance(n.iter, ast.Name) and n.iter.id in cmdvars:
+            eng.loop_contracts[key] = WriteLoop(assigned + targets, targets[0] if targets else None)
+            roles["write"] = i
+        else:
+            eng.loop_contracts[key] = ExtFrameLoop(assigned + targets)
+    if "union" not in roles or "write" not in roles:
+        raise Unsupported("the writer no longer has a mask-union loop followed by a loop that creates and stores one variable per result")
+    spec = NcWriteSpec()
+    orig_exit = cmdspec.check_exit
+
+    def check_exit(eng_, spec_, x, st, out, label):
+        orig_exit(eng_, spec_, x, st, out, label)
+        if out[0] == "raise":
+            return
+        n = x.n("OutFieldNames")
+        # every result is written: the write loop ran over the whole list (its contract is checked per iteration)
+        datasets = [ev for ev in st.log if ev[0] == "ext-call" and ev[1] == "Dataset"]
+        eng_.oblige(st, label + "/the output dataset is opened for writing", z3.BoolVal(any(len(ev[2]) > 1 and ev[2][1] == "w" for ev in datasets)), kind="ensures",
+                    meta={"clause": "write"}, assume_after=False)
+
+    cmdspec.check_exit = check_exit
     try:
-        return verify_nc_read(repo)
-    except Unsupported as e:
-        return [{"name": "%s::EEMSRead.execute/supported" % NCIO, "status": "unknown", "backend": "engine", "time_s": 0, "clause": "supported",
-                 "function": "%s::EEMSRead.execute" % NCIO, "reason": "unsupported construct: %s" % e}], []
+        recs = list(verify_execute(eng, ci, spec))
+    finally:
+        cmdspec.check_exit = orig_exit
+        eng.nc_write_mode = False
+    # lemma PMISS-MONO, induction step and base, over the definition U(0) = M(0), U(j+1) = U(j) or M(j+1):
+    # (M(k) => U(k)) and (U(j) => U(j+1)); hence M(k) => U(m) for every m >= k.
+    U = z3.Function("U", z3.IntSort(), z3.BoolSort())
+    M = z3.Function("M", z3.IntSort(), z3.BoolSort())
+    jj, kk = z3.Ints("jj kk")
+    defn = z3.And(U(0) == M(0), z3.ForAll([jj], z3.Implies(jj >= 0, U(jj + 1) == z3.Or(U(jj), M(jj + 1)))))
+    for nm, goal in (("a missing cell of result k is in the union up to k", z3.Implies(z3.And(kk >= 0, M(kk)), U(kk))),
+                     ("the union only grows", z3.Implies(z3.And(kk >= 0, U(kk)), U(kk + 1)))):
+        v = smt.check([defn], goal)
+        recs.append({"name": "lemma/PMISS-MONO: " + nm, "status": v.status, "backend": v.backend, "time_s": round(v.time_s, 3), "clause": "mask",
+                     "function": fi.key, "goal": str(goal), "reason": v.reason})
+    return recs, [dict(fi.describe(), verified_for_class="EEMSWrite (netcdf)")]
